@@ -28,9 +28,26 @@ TRANSLATE["poly"] = [("Polyhedron", "into_scad"), ("Polyhedron", "into_scad_with
                      ("Polyhedron", "apply_matrix"), ("Polyhedron", "rotate_x"), ("Polyhedron", "rotate_y"), ("Polyhedron", "rotate_z"),
                      ("Polyhedron", "linear_extrude"), ("Polyhedron", "loft"), ("Polyhedron", "cylinder"),
                      ("Polyhedron", "rotate_extrude"), ("Polyhedron", "sweep")]
+TRANSLATE["chain2"] = [("QuadraticBezier2D", "new"), ("QuadraticBezier2D", "gen_points"), ("CubicBezier2D", "new"), ("CubicBezier2D", "gen_points"),
+                       ("CubicBezierChain2D", "new"), ("CubicBezierChain2D", "add"), ("CubicBezierChain2D", "close"),
+                       ("CubicBezierChain2D", "gen_points"), ("BezierStar", "new"), ("BezierStar", "gen_points"), (None, "bezier_star")]
+TRANSLATE["chain3"] = [("QuadraticBezier3D", "new"), ("QuadraticBezier3D", "gen_points"), ("CubicBezier3D", "new"), ("CubicBezier3D", "gen_points"),
+                       ("CubicBezierChain3D", "new"), ("CubicBezierChain3D", "add"), ("CubicBezierChain3D", "close"),
+                       ("CubicBezierChain3D", "gen_points")]
+# the Bézier record structs are the model's structures (field for field; `end` is `end_`); `BezierStar` wraps one
+# chain and is translated as that chain
+CHAIN_RECORDS = {
+    "chain2": ({"QuadraticBezier2D": "Dim2.Quadratic α", "CubicBezier2D": "Dim2.Cubic α", "CubicBezierChain2D": "Dim2.Chain α"},
+               {"CubicBezier2D": "(⟨⟨0, 0⟩, ⟨0, 0⟩, ⟨0, 0⟩, ⟨0, 0⟩, 0⟩ : Dim2.Cubic α)"},
+               {"BezierStar": ("chain", "CubicBezierChain2D")}),
+    "chain3": ({"QuadraticBezier3D": "Dim3.Quadratic α", "CubicBezier3D": "Dim3.Cubic α", "CubicBezierChain3D": "Dim3.Chain α"},
+               {"CubicBezier3D": "(⟨⟨0, 0, 0⟩, ⟨0, 0, 0⟩, ⟨0, 0, 0⟩, ⟨0, 0, 0⟩, 0⟩ : Dim3.Cubic α)"},
+               {}),
+}
 TRANSLATE["thread_parts"] = [(None, "threaded_rod"), (None, "tap"), (None, "hex_bolt"), (None, "hex_nut")]
-SOURCE = {"pipe": "pipe", "scad": "scad", "thread_parts": "metric_thread", "poly": "dim3"}
-OUTNAME = {"pipe": "SrcPipe", "scad": "SrcScad", "thread_parts": "SrcThreadParts", "poly": "SrcPolyhedron"}
+SOURCE = {"pipe": "pipe", "scad": "scad", "thread_parts": "metric_thread", "poly": "dim3", "chain2": "dim2", "chain3": "dim3"}
+OUTNAME = {"pipe": "SrcPipe", "scad": "SrcScad", "thread_parts": "SrcThreadParts", "poly": "SrcPolyhedron",
+           "chain2": "SrcChain2", "chain3": "SrcChain3"}
 # the ear-clipping entry points stay hand-modelled (Model/Tri.lean): named directly in the mesh builders
 POLY_EXTERNS = {
     (None, "triangulate2d"): {"lean": "Tri.triangulate2d", "params": [("vertices", "Pt2s", "ref")], "ret": "Indices", "selfmode": None, "partial": True},
@@ -71,6 +88,27 @@ def generate_file(repo, only):
                                             "ret": G.norm_type(fn["ret"], None), "selfmode": None,
                                             "partial": fn["name"] in d2_partial}
     d = scad_items if only == "scad" else parse_file(open(f"{repo}/scad_tree/src/{SOURCE[only]}.rs").read())
+    G.REC_LEAN.clear(); G.REC_DEFAULT.clear(); G.NEWTYPES.clear()
+    if only in CHAIN_RECORDS:
+        rec, dflt, newt = CHAIN_RECORDS[only]
+        G.REC_LEAN.update(rec); G.REC_DEFAULT.update(dflt); G.NEWTYPES.update(newt)
+        ctx.record_structs = set(rec)
+        for nm_ in list(rec) + list(newt):
+            if nm_ not in d["structs"]:
+                raise SystemExit(f"gen_src_{only}: struct {nm_} not found in {SOURCE[only]}.rs")
+            ctx.structs[nm_] = {"fields": [(f_, G.norm_type(t_, nm_)) for f_, t_ in d["structs"][nm_]["fields"]], "derives": []}
+        for nm_, (f_, t_) in newt.items():
+            if ctx.structs[nm_]["fields"] != [(f_, t_)]:
+                raise SystemExit(f"gen_src_{only}: {nm_} is no longer a wrapper of one {t_}")
+        if only == "chain3":
+            d3 = parse_file(open(f"{repo}/scad_tree/src/dim3.rs").read())
+            d3_partial = geomsrc.partial_set({fn["name"]: fn for fn in d3["fns"]}, geomsrc.TRANSLATE["dim3"])
+            for fn in d3["fns"]:
+                if fn["name"] in geomsrc.TRANSLATE["dim3"]:
+                    params = [(pn, G.norm_type(t, None), m) for pn, t, m in fn["params"]]
+                    ctx.sigs[(None, fn["name"])] = {"lean": f"Src.dim3.{G.lname(fn['name'])}", "params": params,
+                                                    "ret": G.norm_type(fn["ret"], None), "selfmode": None,
+                                                    "partial": fn["name"] in d3_partial}
     if only == "poly":
         ctx.sigs.update(POLY_EXTERNS)
         ctx.structs["Polyhedron"] = {"fields": [("points", "Pt3s"), ("faces", "Faces")], "derives": []}
@@ -103,7 +141,7 @@ def generate_file(repo, only):
     if errors:
         raise SystemExit(f"gen_src_{only}: " + "; ".join(errors))
     for key, (fn, tname) in found.items():
-        if key not in wanted:
+        if key not in wanted and not (key[0] is None and key[1] in geomsrc.TRANSLATE.get(SOURCE[only], ())):
             skipped.append(f"{SOURCE[only]}.rs {(key[0] + '::') if key[0] else ''}{key[1]}")
     # partial (asserting) functions among the wanted ones: own assert!s or calls of partial functions
     def is_partial(fn, known):
@@ -135,10 +173,13 @@ def generate_file(repo, only):
             ctx.ops[({"Add": "+", "Sub": "-"}[tname], ty, ty)] = (sig["lean"], ret)
         else:
             ctx.sigs[(ty, fn["name"])] = sig
-    out = [f"/- GENERATED by translator/gen_src_{only}.py (treesrc.py) from scad_tree/src/{only}.rs — do not edit. -/",
+    ctx.mut_methods = {k[1] for k in wanted if found[k][0]["_sig"]["selfmode"] == "mutref"}
+    out = [f"/- GENERATED by translator/gen_src_{only}.py (treesrc.py) from scad_tree/src/{SOURCE[only]}.rs — do not edit. -/",
            "import ScadVerif.Gen.MathSrc", "import ScadVerif.Gen.SrcDim2", "import ScadVerif.Model.Scad"] + (
            ["import ScadVerif.Gen.SrcScad", "import ScadVerif.Gen.SrcMetricThread", "import ScadVerif.Model.Thread"] if only == "thread_parts" else []) + (
-           ["import ScadVerif.Model.Dim3"] if only == "poly" else []) + [
+           ["import ScadVerif.Model.Dim3"] if only == "poly" else []) + (
+           ["import ScadVerif.Model.Dim2"] if only == "chain2" else []) + (
+           ["import ScadVerif.Model.Dim3", "import ScadVerif.Gen.SrcDim3"] if only == "chain3" else []) + [
            "set_option linter.unusedVariables false",
            "namespace ScadVerif",
            "variable {α : Type} [Add α] [Sub α] [Mul α] [Div α] [Neg α] [OfNat α 0] [OfNat α 1]",
@@ -159,11 +200,12 @@ def generate_file(repo, only):
             rt = G.lean_type(sig["ret"])
             if sig["partial"]:
                 rt = f"Option ({rt})"
-            out.append(f"/-- {only}.rs{' (asserting: `none` is the panic)' if sig['partial'] else ''} -/\ndef {sig['lean']} {' '.join(binders)} : {rt} :=\n  {body}\n")
+            out.append(f"/-- {SOURCE[only]}.rs{' (asserting: `none` is the panic)' if sig['partial'] else ''} -/\ndef {sig['lean']} {' '.join(binders)} : {rt} :=\n  {body}\n")
         except Unsupported as ex:
             errors.append(f"{only}.rs: {ty}::{nm}: not translatable ({ex})")
     if errors:
         raise SystemExit(f"gen_src_{only}: " + "; ".join(errors))
+    G.REC_LEAN.clear(); G.REC_DEFAULT.clear(); G.NEWTYPES.clear()
     out.append(f"def Src.{only}.translated : List String := [" + ", ".join(f'"{found[k][0]["_sig"]["lean"]}"' for k in wanted) + "]")
     out.append(f"def Src.{only}.skipped : List String := [" + ", ".join(f'"{x}"' for x in skipped) + "]")
     out.append("\nend ScadVerif")
